@@ -17,6 +17,8 @@ fn st(v: u64) -> ServingStatus { match v { 1 => ServingStatus::Serving, 2 => Ser
 static CONC_SEQ: std::sync::atomic::AtomicU64 = std::sync::atomic::AtomicU64::new(0);
 fn seq() -> u64 { CONC_SEQ.fetch_add(1, std::sync::atomic::Ordering::SeqCst) }
 #[derive(Clone)]
+struct NamedA; impl tonic::server::NamedService for NamedA { const NAME: &'static str = "a"; }
+struct NamedB; impl tonic::server::NamedService for NamedB { const NAME: &'static str = "b"; }
 struct COp { kind: String, s: String, v: u64, w: u64, burn: u64 }
 fn parse_op(op: &Value) -> COp { COp { kind: op["op"].as_str().unwrap_or("").to_string(), s: op["s"].as_str().unwrap_or("").to_string(), v: op["v"].as_u64().unwrap_or(0), w: op["w"].as_u64().unwrap_or(0), burn: op["burn"].as_u64().unwrap_or(0) } }
 /// (call seq, ret seq, thread, op name, service, v, w, result, status)
@@ -169,7 +171,18 @@ pub fn run(stim: &Value, rec: &Rec) {
             let s = op["s"].as_str().unwrap_or("").to_string();
             let w = op["w"].as_u64().unwrap_or(0);
             let res = match op["op"].as_str().unwrap_or("") {
-                "set" => { reporter.set_service_status(s.clone(), st(op["v"].as_u64().unwrap_or(0))).await; json!({"r":"done"}) }
+                "set" => {
+                    // every other operation goes through the typed front ends set_serving::<S>() / set_not_serving::<S>() where they apply
+                    let v = op["v"].as_u64().unwrap_or(0);
+                    match (i % 2, s.as_str(), v) {
+                        (1, "a", 1) => reporter.set_serving::<NamedA>().await,
+                        (1, "a", 2) => reporter.set_not_serving::<NamedA>().await,
+                        (1, "b", 1) => reporter.set_serving::<NamedB>().await,
+                        (1, "b", 2) => reporter.set_not_serving::<NamedB>().await,
+                        _ => reporter.set_service_status(s.clone(), st(v)).await,
+                    }
+                    json!({"r":"done"})
+                }
                 "clear" => { reporter.clear_service_status(&s).await; json!({"r":"done"}) }
                 "check" => match client.check(HealthCheckRequest { service: s.clone() }).await {
                     Ok(r) => json!({"r":"status","code":0,"status":r.get_ref().status}),
